@@ -9,6 +9,11 @@
  (c) BUILDER    in the builder, every toroidal arm canonicalises the vertices (success edge) before
                 construction, constructs from the canonicalised vertices, and records the global
                 topology before returning Ok.
+ (d) TOPOKEEP   "later insertions are wrapped the same way" needs the recorded global topology to
+                survive every operation: no exported `&mut` operation other than
+                `set_global_topology` changes `global_topology` on any path; an operation that
+                replaces the whole receiver (`*self = candidate`) must get the candidate from a
+                builder that copies `self.tri.global_topology` into it before every Ok.
 Not decided: the periodic image-point mode (closedness, Euler characteristic, offsets), congruence
 modulo the period as a numerical statement."""
 import flow
@@ -23,7 +28,9 @@ EXPLANATION = (
     "idempotence clauses. WRAPGATE: must-pass-through from entry to the call chain that reaches "
     "Tds::insert_vertex_with_mapping via a call reaching GlobalTopologyModel::canonicalize_point_in_place, for "
     "every exported &mut DelaunayTriangulation operation that takes a Vertex and reaches point location. BUILDER: "
-    "dominance and value-flow checks inside DelaunayTriangulationBuilder::build_with_kernel. The image-point "
+    "dominance and value-flow checks inside DelaunayTriangulationBuilder::build_with_kernel. TOPOKEEP: effect "
+    "analysis (the C03 SIDE dataflow on the field Triangulation.global_topology): only set_global_topology may write "
+    "it; whole-receiver replacements must be fed by a builder that copies the field. The image-point "
     "periodic mode is not decided.")
 
 REM = 'std::f64::<impl f64>::rem_euclid'
@@ -46,7 +53,46 @@ def run(ctx):
         _postguard(ctx, cfg, prog, mod)
         _wrapgate(ctx, cfg, prog, mod)
         _builder(ctx, cfg, prog, mod)
+        _topokeep(ctx, cfg, prog, mod)
     return ctx.finish(EXPLANATION)
+
+
+TOPO_WRITERS = {'set_global_topology': 'the documented setter'}
+
+
+def _topokeep(ctx, cfg, prog, mod):
+    import c11
+    import side
+    ctx.rule('TOPOKEEP', 'no exported &mut operation other than set_global_topology changes global_topology; whole-receiver '
+                         'replacements copy it from the receiver')
+    keep, sites = side.keep_table(prog, mod)
+    res, eng = side.engine_for(prog, mod, 'global_topology', {}, keep)
+    eng.solve()
+    E = c11.entry_set(prog, res)
+    ctx.floor('exported &mut operations holding a global_topology', 20, len(E), cfg)
+    writers = 0
+    for (q, i) in E:
+        b = prog.bodies[q]
+        summ = eng.summary[(q, i)]
+        changed = any(m for (_, m) in summ)
+        name = q.rsplit('::', 1)[-1]
+        if name in TOPO_WRITERS:
+            writers += 1 if changed else 0
+            ctx.ob('TOPOKEEP', q + '|writer', cfg, True, 'allowed writer (%s): %s' % (TOPO_WRITERS[name], sorted(summ)),
+                   nontrivial=False, site='%s:%d' % (b.file, b.line))
+            continue
+        detail = 'outcomes (exit class, global_topology changed): %s' % sorted(summ)
+        if changed:
+            r = eng.own_root(q, i, set()) if ('fail', 1) in summ else None
+            detail += ('; global_topology can be changed by this operation: later insertions would no longer be wrapped '
+                       '(or be wrapped differently)')
+            if r:
+                detail += '; source: %s' % r['source']
+        ctx.ob('TOPOKEEP', q, cfg, not changed, detail, site='%s:%d' % (b.file, b.line))
+    for owner, (ok, d) in sorted(keep.get('global_topology', {}).items()):
+        ctx.ob('TOPOKEEP', 'replace|' + owner, cfg, ok, 'whole-receiver replacement in %s: %s' % (owner.rsplit('::', 1)[-1], d))
+    ctx.floor('global_topology writers found (positive control: the setter is seen writing)', 2, writers, cfg)
+    ctx.floor('whole-receiver replacement sites', 2, len(sites), cfg)
 
 
 def _is_rem(t):
